@@ -239,6 +239,7 @@ func (cs *carrierSet) Close() {
 }
 
 func checkC01(e *core.Env) {
+	curEnv = e
 	e.SetRule("seeded scripts (kind, 0..50 messages per direction, hostile message shapes/sizes, handler receive/send interleavings) run on in-process, httpgrpc.Server and HandleServices carriers plus concurrent batches on one channel; distinct = distinct (carrier, script shape, size class) that exchanged >=1 message; each receive is compared with the sender's k-th attempted message (proto.Equal + deterministic bytes), counts compared at successful end; scripts on which the standard transport itself fails the oracle are calibrated out")
 	e.Assume("HTTP bidi scripts are half-duplex (client closes send before the handler replies)")
 	e.Assume("equality of sequences is required only when the receiver drained to EOF")
